@@ -26,6 +26,9 @@ def demo_cmds(notes):
         cmds.append(("no_std", "cargo test --offline --no-default-features --test demo"))
     if "--release" in notes:
         cmds.append(("release", "cargo test --offline --release --test demo"))
+    for feats in sorted(set(re.findall(r"--features[ =]([a-z_,\-]+)", notes))):
+        if feats not in ("unsize,arc-swap",):
+            cmds.append(("features:" + feats, "cargo test --offline --features %s --test demo" % feats))
     if "miri" in notes.lower():
         cmds.append(("miri", "cargo +nightly miri test --offline --test demo"))
     return cmds
